@@ -45,3 +45,12 @@ Example c17_ex :
         (fun i => match i with 0%nat => Raise MemcacheServerError | 1%nat => Raise MemcacheClientError | _ => Ok (DInt 7) end)
   = (Ok (DInt 7), [ECall; ESleep 5; ECall; ESleep 5; ECall]).
 Proof. vm_compute. reflexivity. Qed.
+
+(* the subscript forms c[k] = v, c[k], del c[k] go through the object's own set / get / delete (bodies read from the source on
+   every run, Gen/Subscripts.v): they inherit everything proved of those methods *)
+From Coq Require Import String.
+From PM Require Import Gen.Subscripts Spec.SubscriptForms.
+Theorem c17_subscripts :
+  forms_of "RetryingClient"%string subscript_forms = expected_forms "RetryingClient"%string.
+Proof. repeat split; reflexivity. Qed.
+Print Assumptions c17_subscripts.
